@@ -51,7 +51,7 @@ def workload(ctx, pid, mode, deep):
             continue
         env = envs[rng.randrange(len(envs))] if rng.random() < 0.5 else None
         ctx.count('compiled_programs')
-        out = K.run_case(ctx, pid, 'compiled', code, env, mode, deep)
+        out = K.run_case(ctx, pid, 'compiled', code, env, mode, deep, poison=K.POISON[j % len(K.POISON)] if j % 4 == 1 else None)
         if out.kind == 'agree' and out.model.kind == 'ok':
             got = [t for t, _ in out.model.stack]
             if got != types:
@@ -83,6 +83,7 @@ def run(ctx):
     R.workload(ctx, PID, MODE)
     ctx.require('real_contract_agree' if not ctx.violations else 'real_contract_calls', 20)
     ctx.require('real_contract_hook_events', 1000)
+    ctx.require('programs_run_after_a_failed_cell_on_the_same_interpreter', 50)
     ctx.require('agree', 300)
     ctx.require('hook_events', 3000)
     ctx.require('model_outcome_failwith', 5)
@@ -102,4 +103,4 @@ def replay(ctx, case):
         if oc.kind == 'violation':
             ctx.violation('%s|%s' % (PID, oc.sig), oc.detail, case)
         return
-    K.run_case(ctx, PID, case.get('label', 'replay'), case['code'], K.env_from_json(case.get('env')), MODE, False)
+    K.run_case(ctx, PID, case.get('label', 'replay'), case['code'], K.env_from_json(case.get('env')), MODE, False, poison=case.get('poison'))
